@@ -481,45 +481,28 @@ def dims_time(ctx: Ctx) -> None:
            "state tag in {STOP, DELAY} and asked tag in {STOP_END, DELAY_END}", decs, [W, ST, QT], lambda a_: ("zero" if a_[W] else "beats*60/bpm", bool(a_[ST] and a_[QT])),
            why="seconds = beats * 60 / (beats per minute); a stop or delay lasts from its start event to its end event")
     ctx.floor("paths through time_until", len(decs), 4)
-    # advance
+    # advance: one new state per event - the event's beat, value and tag, its time = last state's time + elapsed seconds measured from the last
+    # state to (event.beat, event.tag); the BPM changes exactly on a BPM event, the warp flag is set on WARP and cleared on WARP_END
     a = p.func(f"{ENG}:TimingStateMachine.advance")
     asn, evp = a.param_names()
-    loc = locals_of(a)
-    tu = [b for name, bs in loc.b.items() for b in bs if b.kind == "assign" and isinstance(b.value, ast.Call) and callee_name(ctx, a, b.value) == f.fq]
-    tb = one(tu, f"call of time_until in {a.fq}")
-    okc = [ast.unparse(x) for x in tb.value.args] == [f"{evp}.beat", f"{evp}.tag"] and ast.unparse(tb.value.func.value) == f"{asn}.last"
-    ctx.expect("R-FWD", a, "the next event's time is measured from the last state to (event.beat, event.tag)", okc, "", f"{src(tb.value)}", node=tb.node)
-    tname = [name for name, bs in loc.b.items() if tb in bs][0]
-    cons0 = record_constructions(ctx, a, f"{ENG}.TimingState")
-    c0 = one(cons0, f"TimingState construction in {a.fq}")
-    fm0 = field_map(ctx, f"{ENG}.TimingState", c0)
-    em0 = field_map(ctx, f"{ENG}.TimedEvent", fm0["event"]) if isinstance(fm0.get("event"), ast.Call) else {}
-    N = {"bpm": getattr(fm0.get("bpm"), "id", "bpm"), "warp": getattr(fm0.get("warp"), "id", "warp"), "time": getattr(em0.get("time"), "id", "time")}
-    times = [b for name, bs in loc.b.items() for b in bs if b.kind == "assign" and name == N["time"]]
-    okt = len(times) == 1 and ast.unparse(times[0].value) in (f"SongTime({asn}.last.event.time + {tname})", f"SongTime({tname} + {asn}.last.event.time)")
-    ctx.expect("R-DIM", a, "event time = last state's time + elapsed seconds", okt, "", f"{src(times[0].value) if times else ''}", node=a.node)
-    # bpm / warp updates
-    for name, want_tag, want_val in (("bpm", "BPM", f"{evp}.value"), ("warp", "WARP", "True"), ("warp", "WARP_END", "False")):
-        hits = []
-        for b in loc.b.get(N[name], []):
-            if b.kind == "assign" and ast.unparse(b.value) == want_val:
-                fs = facts(ctx, a, b.node)
-                tg = [s for a_, pol in fs if pol for s in [_membership(ctx, a, a_, f"{evp}.tag")] if s]
-                hits.append(tg == [{want_tag}])
-        ctx.expect("R-TABLE", a, f"{name} becomes {want_val} exactly on a {want_tag} event", hits == [True], str(hits), f"assignments of {name} = {want_val}: guards {hits}", node=a.node)
-    carry = {n_: [ast.unparse(b.value) for b in loc.b.get(N[n_], []) if b.kind == "assign"] for n_ in ("bpm", "warp")}
-    ctx.expect("R-TABLE", a, "bpm and warp flag carry over from the last state otherwise", f"{asn}.last.bpm" in carry["bpm"] and f"{asn}.last.warp" in carry["warp"]
-               and len(carry["bpm"]) == 2 and len(carry["warp"]) == 3, str(carry), str(carry), node=a.node)
-    cons = record_constructions(ctx, a, f"{ENG}.TimingState")
-    c = one(cons, f"TimingState construction in {a.fq}")
-    fm = field_map(ctx, f"{ENG}.TimingState", c)
-    em = field_map(ctx, f"{ENG}.TimedEvent", fm["event"]) if isinstance(fm.get("event"), ast.Call) else {}
-    oks = {k: ast.unparse(v) for k, v in em.items()} == {"beat": f"{evp}.beat", "value": f"{evp}.value", "tag": f"{evp}.tag", "time": N["time"]} \
-        and ast.unparse(fm.get("bpm")) == N["bpm"] and ast.unparse(fm.get("warp")) == N["warp"]
-    ctx.expect("R-REBUILD", a, "the new state records the event's beat, value, tag, its time, and the updated bpm / warp flag", oks, "", f"{src(c, 200)}", node=c)
-    ap = [c_ for c_ in method_calls(a, "append") if c_.args and c_.args[0] is c]
-    cfg = ctx.cfg(a)
-    ctx.expect("R-ORDER", a, "the new state is appended on every path", len(ap) == 1 and cfg.must_pass([cfg_node_of(cfg, a, ap[0])]) is None, "", "", node=a.node)
+    from .tables import closed_text as _ct
+    from ..decide import IGNORE as _IGN
+    asums = tsums(ctx, a)
+    Bq, Wq, WEq = f"{evp}.tag == EventTag.BPM", f"{evp}.tag == EventTag.WARP", f"{evp}.tag == EventTag.WARP_END"
+    TIMEX = OneOfS(f"SongTime({asn}.last.event.time + {asn}.last.time_until({evp}.beat, {evp}.tag))", f"SongTime({asn}.last.time_until({evp}.beat, {evp}.tag) + {asn}.last.event.time)")
+
+    def aspec(a_):
+        if sum(1 for x in (a_[Bq], a_[Wq], a_[WEq]) if x) > 1:
+            return _IGN
+        bpm = f"{evp}.value" if a_[Bq] else f"{asn}.last.bpm"
+        warp = "True" if a_[Wq] else ("False" if a_[WEq] else f"{asn}.last.warp")
+        return tuple([OneOfS(*[f"{asn}.append(TimingState(event=TimedEvent(beat={evp}.beat, value={evp}.value, tag={evp}.tag, time={t}), bpm={bpm}, warp={warp}))" for t in TIMEX.alts])])
+
+    adecs = [Dec(dict(s_.plain_assign()), tuple(_ct(s_, e, keep=[asn, evp]) for e in s_.effects if e.kind in ("expr", "store", "aug", "delete", "return", "raise") and not (e.kind == "return" and e.value is None)), s_)
+             for s_ in asums]
+    tjudge(ctx, "R-REBUILD", a, "the new state records the event's beat, value and tag, time = last state's time + last.time_until(event.beat, event.tag); bpm becomes event.value exactly on a BPM event, "
+           "warp becomes True exactly on WARP and False exactly on WARP_END, both carry over otherwise; the state is appended on every path", adecs, [Bq, Wq, WEq], aspec,
+           why="the timeline is the fold of the events over (time, bpm, warp)")
     # time_at
     ta = p.func(f"{TE}.time_at")
     rr = [r_ for r_ in body_walk(ta.node) if isinstance(r_, ast.Return)]
@@ -915,6 +898,23 @@ def displaybpm_rule(ctx: Ctx) -> None:
                 if t not in (f"return StaticDisplayBPM(value={B}[0])", f"return RangeDisplayBPM(min=min({B}), max=max({B}))"):
                     bad.append(t)
         ctx.expect("R-EXC", f, "after a malformed number the result comes from the BPMS", not bad and n > 0, f"{n} handler paths", f"handler paths end in {sorted(set(bad))[:3]}", node=tries[0])
+
+
+class OneOfS(str):
+    """A text with accepted alternative spellings."""
+
+    def __new__(cls, *alts):
+        o = str.__new__(cls, alts[0])
+        o.alts = tuple(alts)
+        return o
+
+    def __eq__(self, other):
+        return other in self.alts
+
+    def __ne__(self, other):
+        return other not in self.alts
+
+    __hash__ = str.__hash__
 
 
 def callee_name_text(c: ast.Call) -> str:
